@@ -19,6 +19,7 @@ mod e_escape;
 fn dispatch(engine: &str, case: &Value) -> Value {
     match engine {
         "merge" => e_merge::run(case),
+        "consume" => e_merge::run_consume(case),
         "lcov" => e_lcov::run(case),
         "escape" => e_escape::run(case),
         "report" => e_report::run(case),
